@@ -776,7 +776,31 @@ func TestVerifC32(t *testing.T) {
 			return res.Canon, en, true
 		}
 	}
+	// determinism self-check, then directed histories: one known history per coverage counter, evaluated like any
+	// other (so that a run cut short by its time budget is capped, not vacuous)
+	{
+		h := []string{"lsp:eth0:A:2:2", "csnp:eth1:1:1", "send-psnp", "tick", "lsp:eth1:own:+2:1200", "own-update"}
+		if a, b := zvC32Replay(h, false), zvC32Replay(h, false); a.Canon != b.Canon || fmt.Sprint(a.Labels, a.Viols) != fmt.Sprint(b.Labels, b.Viols) {
+			r.Fatalf("replaying the same history twice gave different results:\n%+v\n%+v", a, b)
+		}
+	}
+	directed := [][]string{
+		{"lsp:eth0:A:2:1200", "lsp:eth1:A:2:1200", "lsp:eth1:A:1:1200", "send-lsp"}, // newer, same, older
+		{"lsp:eth0:A:2:1200", "psnp:eth1:1", "psnp:eth1:2"},                        // PSNP older, equal
+		{"csnp:eth0:1:1", "send-psnp", "send-csnp"},
+		{"lsp:eth0:A:1:2", "tick", "tick"},          // aged out
+		{"lsp:eth0:own:+2:1200", "own-update"},      // own LSP overtakes
+		{"lsp:eth0:A:3:1200", "send-lsp", "send-psnp"},
+	}
 	idx := 0
+	for _, h := range directed {
+		for n := 1; n <= len(h); n++ {
+			idx++
+			if r.Mine(idx) {
+				step("full", h[:n])(nil)
+			}
+		}
+	}
 	for _, u := range []struct {
 		uni   string
 		depth int
